@@ -2356,11 +2356,12 @@ impl<'i, R: XmlRead<'i>, E: EntityResolver> XmlReader<'i, R, E> {
     #[inline]
     fn read_to_end(&mut self, name: QName) -> Result<(), DeError> {
         match self.lookahead {
-            // We pre-read event with the same name that is required to be skipped.
-            // First call of `read_to_end` will end out pre-read event, the second
-            // will consume other events
-            Ok(PayloadEvent::Start(ref e)) if e.name() == name => {
-                let result1 = self.reader.read_to_end(name);
+            // We pre-read a start event of a nested element. First call of `read_to_end`
+            // will end that pre-read element (and close its namespace scope, which was
+            // already opened when the event was pre-read), the second will consume
+            // other events up to the end of the element that is required to be skipped
+            Ok(PayloadEvent::Start(ref e)) => {
+                let result1 = self.reader.read_to_end(e.name());
                 let result2 = self.reader.read_to_end(name);
 
                 // In case of error `next_impl` returns `Eof`
